@@ -1,6 +1,7 @@
 import Orca.Gen.ConstExpr
 import Orca.Lemmas.Helpers
 import Orca.Lemmas.Ops
+import Orca.Lemmas.Redirect
 /-!
 # C30 — module-level additions appear exactly as requested
 
@@ -158,6 +159,42 @@ theorem c30_mod_init_only_that (s : St) (id : Nat) (sites : List Ref) (it : Orca
   refine ⟨{ s with ginit := setAssoc s.ginit it.uid sites }, by simp [modGlobalInit, hit, hloc], rfl, rfl, rfl, rfl, rfl, rfl, rfl, rfl, rfl, ?_, ?_⟩
   · simp [lookup_setAssoc]
   · intro u hu; simp [lookup_setAssoc, hu]
+
+open Orca.Edit in
+/-- **the returned ids designate the added items — in the encoded module, after any later history.** Take any state reached from a
+    parsed module, add a global or a memory (`add_global`, the iterators' `add_global`, `add_imported_global`, `add_local_memory`,
+    `add_import_memory`), continue with any history that does not delete the added item (and does not encode), then encode.
+    The addition reported the position `n`; either the encoder fails loudly because some stored reference designates a deleted
+    entity, or every emitted reference of that index space whose stored id is `n` designates the added item `uid`, and every
+    reference at all designates the live entity its id designated. -/
+theorem c30_returned_ids_designate (s0 : St) (h0 : StInv s0) (op : Edit.Op) (sp : Sp) (uid : Nat) (hadd : addedBy op = some (sp, uid))
+    (hsp : sp ≠ .F) (ops : List Edit.Op)
+    (hs : ∀ o ∈ ops, o ≠ .encode ∧ o ≠ .deleteGlobal (s0.space sp).items.length ∧ o ≠ .deleteMem (s0.space sp).items.length) :
+    let n := (s0.space sp).items.length
+    let s := (run (step s0 op).1 ops).1
+    reportedId (step s0 op).2 = some n
+    ∧ ((∃ s' F G M res st, encode s = (s', Ret.encoded F G M res st)
+        ∧ (∀ r' ∈ res ++ st.toList, ∃ r ∈ allRefs s, r'.site = r.site ∧ r'.sp = r.sp
+            ∧ (∃ u, PointsTo s r u ∧ designated F G M r' = some u)
+            ∧ (r.sp = sp → r.idx = n → designated F G M r' = some uid)))
+      ∨ (∃ s' why, encode s = (s', Ret.panic why) ∧ ∃ r ∈ allRefs s, Dangling s r)) := by
+  refine added_id_designates s0 h0 op sp uid hadd ops ?_
+  intro x _ o ho
+  obtain ⟨a, b, c⟩ := hs o ho
+  cases sp with
+  | F => exact absurd rfl hsp
+  | G => exact ⟨fun id h e => b (by rw [h, e]), a⟩
+  | M => exact ⟨fun id h e => c (by rw [h, e]), a⟩
+
+open Orca.Edit in
+/-- non-vacuity: a global is added behind a deleted one, an imported global is added afterwards (the vector is re-indexed at encode);
+    the initialiser site that names the reported id 2 designates the added global 8 -/
+example :
+    let s0 : St := { g := { items := [⟨0, false, false, 5, 0⟩, ⟨1, false, false, 6, 0⟩] }, ginit := [(5, []), (6, [])] }
+    let s1 := (run s0 [.deleteGlobal 0, .addGlobal 8 [], .addImportedGlobal 9, .addGlobal 10 [⟨300, Sp.G, 2⟩]]).1
+    (match (encode s1).2 with
+     | Ret.encoded _ G _ res _ => (G, res.map (fun r => (r.site, G[r.idx]?)))
+     | _ => ([], [])) = ([9, 6, 8, 10], [(300, some 8)]) := by decide
 
 /-! non-vacuity (decided): the all-ones vector and a vector with the sign bit set survive `as i128` -/
 example : toLe 16 (bitsOf 128 (toSigned 128 (ofLe (List.replicate 16 255)))) = List.replicate 16 255 := by decide
